@@ -11,7 +11,7 @@ class C03(PropBase):
     extractors = ["trans_bits", "crc", "trans"]
     rule = ("frames of the nine formats built from (format, random payload, address in {1, 2^24-1, 0, random}); get_icao and "
             "DF::from_message asked directly, compared with the address the frame was built from and with Spec.addressOf; "
-            "interleaved histories of 2-4 aircraft with a dump after every frame: key set and every other row unchanged. "
+            "interleaved histories of 2-4 aircraft with a dump after every frame: key set and every other row unchanged; pairs of aircraft whose addresses differ in one or two bits, every format. "
             "Non-trivial = non-zero address; distinct by frame.")
 
     def explore(self, rep, run, rng, tier, driver_ok):
@@ -112,5 +112,37 @@ class C03(PropBase):
                           {"ops": ops, "frames": [f1, f2], "addresses": [a1, a2]})
                 return
             rep.nontriv(("neighbours", f1, f2))
+
+
+        # neighbouring ADDRESSES: aircraft whose addresses differ in one or two bits (consecutive fleet addresses). Whatever
+        # rows exist already, a frame of every format is attributed to the address it encodes: it creates / updates its own
+        # row and leaves the neighbour's row as it was.
+        for h in range(40 if tier == "quick" else 800):
+            b = rng.randrange(1, 1 << 24)
+            a = b ^ (1 << rng.randrange(24))
+            if rng.random() < 0.3:
+                a ^= 1 << rng.randrange(24)
+            if a == 0 or a == b:
+                continue
+            u, r = rng.choice(gen.ALL_CFGS)
+            first_b = gen.rand_frame(rng, rng.choice(["df11", "df4", "tc11", "df20"]), b)
+            kinds = rng.sample(["df0", "df4", "df5", "df16", "df20", "df21", "df11", "tc11", "df18"], 4)
+            fa = [gen.rand_frame(rng, k, a) for k in kinds]
+            ops = ["reset", gen.cfg_op(use_update=u, relaxed=r), "case b"] + gen.seg([first_b]) + ["dump"]
+            for i, f in enumerate(fa):
+                ops += [f"case a{i}"] + gen.seg([f]) + ["dump"]
+            impl, _, model = run.execute(ops, model=driver_ok)
+            rep.evaluations += 1 + len(fa); rep.traces += 1
+            self.corr(rep, impl, model, f"neighbouring addresses {h}", ops)
+            ci = core.split_cases(impl)
+            rowb = {int(l.split(" ", 2)[1]): l for l in ci.get("b", []) if l.startswith("row ")}.get(b)
+            for i, f in enumerate(fa):
+                rows = {int(l.split(" ", 2)[1]): l for l in ci.get(f"a{i}", []) if l.startswith("row ")}
+                if a not in rows or rows.get(b) != rowb or set(rows) != {a, b}:
+                    self.fail(rep, f"{kinds[i]} frame {f} of {a:06X} while {b:06X} (one or two bits away) has a row: the table holds "
+                                   f"{sorted('%06X' % k for k in rows)}, the row of {b:06X} {'changed' if rows.get(b) != rowb else 'is unchanged'}",
+                              {"ops": ops, "frame": f, "addresses": [a, b]})
+                    return
+            rep.nontriv(("neighbour-addresses", a, b))
 
 PROP = C03()
